@@ -177,6 +177,7 @@ Proof.
   all: rewrite ?app_length, ?map_app, ?sum_app in *; simpl in *.
   all: rw_state; simpl in *.
   all: repeat match goal with H : tosend _ = _ |- _ => rewrite H in *; clear H end; simpl in *.
+  all: repeat match goal with H : empties _ = _ |- _ => rewrite H in *; clear H end; simpl in *.
   all: pose proof (b2nat_le (tick s)) as Bt; pose proof (b2nat_le (rerun s)) as Br; pose proof (b2nat_le (mw0 s)) as Bm.
   all: try rank_case.
   all: unfold cmdw in *; simpl in *; try rank_case.
@@ -195,6 +196,7 @@ Proof.
   all: try (match goal with Ha : nth_error (apps _) _ = Some ?a |- _ => let T := fresh "T" in destruct (a_tok a) eqn:T; simpl in *; rewrite ?T in *; simpl in *; rank_case end).
   all: try (match goal with Hm : mem_nat _ _ = true |- _ => pose proof (remove_first_length _ _ Hm) end;
             destruct (tick s) eqn:?; simpl in *; rank_case).
+  all: try (destruct (mw0 s) eqn:?; simpl in *; rank_case).
 Qed.
 
 Theorem run_rank l : forall s s', inv s -> run cfg_fixed s l = Some s' -> length l + rank s' <= rank s.
